@@ -286,7 +286,9 @@ pub fn mutate_source_text(src: &str, other: &str, t: &mut Tape) -> (String, Stri
             12 => {
                 // a number literal out of the ordinary: replace one run of digits (or insert at
                 // a random place) with a huge, tiny, signed, dotted or malformed number
-                const NUMS: [&str; 12] = [
+                const NUMS: [&str; 14] = [
+                    "2147483647",
+                    "-2147483648",
                     "99999999999999999999",
                     "333333333333333333333333333333333333333333333333333333.5",
                     "0.000000000000000000000000000000000000000000000000000001",
@@ -314,6 +316,34 @@ pub fn mutate_source_text(src: &str, other: &str, t: &mut Tape) -> (String, Stri
                 } else {
                     let i = t.pick(chars.len() + 1);
                     chars.splice(i..i, num);
+                }
+                // ... and now and then the values of a LIST declaration: one item gets an extreme
+                // explicit value and the item after it loses its own, so that its value follows
+                if t.chance(1, 3) {
+                    let text: String = chars.iter().collect();
+                    let mut lines: Vec<String> = text.split('\n').map(|l| l.to_string()).collect();
+                    let list_lines: Vec<usize> = (0..lines.len()).filter(|&i| lines[i].trim_start().starts_with("LIST") && lines[i].contains('=')).collect();
+                    if !list_lines.is_empty() {
+                        let li = list_lines[t.pick(list_lines.len())];
+                        let line = lines[li].clone();
+                        let eq = line.find('=').unwrap();
+                        let mut items: Vec<String> = line[eq + 1..].split(',').map(|x| x.trim().to_string()).collect();
+                        let k = t.pick(items.len());
+                        let big = ["2147483647", "2147483646", "2147483648", "4294967295", "4294967296", "0", "-1"][t.pick(7)];
+                        let strip = |it: &str| -> (String, bool) {
+                            let sel = it.starts_with('(');
+                            let inner = it.trim_start_matches('(').trim_end_matches(')');
+                            (inner.split('=').next().unwrap_or("").trim().to_string(), sel)
+                        };
+                        let (nm, sel) = strip(&items[k]);
+                        items[k] = if sel { format!("({nm} = {big})") } else { format!("{nm} = {big}") };
+                        if k + 1 < items.len() {
+                            let (nm, sel) = strip(&items[k + 1]);
+                            items[k + 1] = if sel { format!("({nm})") } else { nm };
+                        }
+                        lines[li] = format!("{}= {}", &line[..eq], items.join(", "));
+                        chars = lines.join("\n").chars().collect();
+                    }
                 }
                 what.push("number");
             }
